@@ -1037,7 +1037,39 @@ def run(ctx, model):
     check_toml_strings(ctx, cov, tup)
     n = check_constructor(ctx, cov, model, tup)
     cov.bump("constructor-cases", n)
+    rank_violations(ctx)
     return cov
+
+
+RANK = ["same-text:typed-accepted-text-rejected", "same-text:text-accepted-typed-rejected", "wrong-type-accepted",
+        "error-does-not-name-option", "same-text:different-results", "stored-value-of-wrong-type", "roundtrip", "precedence"]
+
+
+def rank_violations(ctx):
+    """./check writes replays for the first three distinct signatures only: put one of each defect family
+    first (plain int option from the environment; TOML int for a float option; bool for an int option),
+    and attach the list of all distinct signatures of this run to every violation."""
+    def key(v):
+        sig = v["signature"]
+        c = sig.get("class")
+        r = RANK.index(c) if c in RANK else len(RANK)
+        plain = 0 if (sig.get("option_type") in ("int", "float") and sig.get("raw_type") in ("int", "bool", "str")) else 1
+        return (r, plain)
+    ctx.violations.sort(key=key)
+    heads, rest, got = [], [], set()
+    for v in ctx.violations:  # one representative per class first, in rank order
+        c = v["signature"].get("class")
+        (rest if c in got else heads).append(v)
+        got.add(c)
+    ctx.violations[:] = heads + rest
+    seen, summary = set(), []
+    for v in ctx.violations:
+        k = common.case_hash(v["signature"])
+        if k not in seen:
+            seen.add(k)
+            summary.append({"signature": v["signature"], "what": v["what"][:200]})
+    for v in ctx.violations:
+        v["all_violation_classes_of_this_run"] = summary
 
 
 def replay(ctx, model, rec):
